@@ -53,7 +53,83 @@ func (c13) Orchestrate(p *fw.Parent) error {
 		}(b)
 	}
 	wg.Wait()
+	c13WideProbe(p)
 	return nil
+}
+
+// c13WideProbe: a struct with exactly 63 fields must generate and compile (the generator keeps the set of
+// assembled fields in an int); for 64 and 70 fields the generated package is compiled too and a failure that
+// is the bit-set constant overflowing is reported under its own signature (a known finding, §4) — any other
+// failure under the general one.
+func c13WideProbe(p *fw.Parent) {
+	scratch, err := os.MkdirTemp("", "verif-c13w-")
+	if err != nil {
+		return
+	}
+	defer os.RemoveAll(scratch)
+	repo := os.Getenv("REPO_ROOT")
+	if repo == "" {
+		repo = "/repo"
+	}
+	os.WriteFile(filepath.Join(scratch, "go.mod"), []byte("module verifgen\n\ngo 1.25.7\n\nrequire github.com/ipld/go-ipld-prime v0.0.0\n\nreplace github.com/ipld/go-ipld-prime => "+repo+"\n"), 0o644)
+	if sum, err := os.ReadFile(filepath.Join(p.Root, "go.sum")); err == nil {
+		os.WriteFile(filepath.Join(scratch, "go.sum"), sum, 0o644)
+	}
+	for _, nf := range []int{63, 64, 70} {
+		ts := new(schema.TypeSystem)
+		ts.Init()
+		ts.Accumulate(schema.SpawnString("String"))
+		ts.Accumulate(schema.SpawnInt("Int"))
+		var fields []schema.StructField
+		for i := 0; i < nf; i++ {
+			tn := "String"
+			if i%3 == 1 {
+				tn = "Int"
+			}
+			fields = append(fields, schema.SpawnStructField(fmt.Sprintf("f%d", i), schema.TypeName(tn), i%2 == 1, false))
+		}
+		ts.Accumulate(schema.SpawnStruct("Wide", fields, schema.SpawnStructRepresentationMap(nil)))
+		pkg := fmt.Sprintf("wide%d", nf)
+		dir := filepath.Join(scratch, "gen", pkg)
+		os.MkdirAll(dir, 0o755)
+		var genPanic any
+		func() {
+			defer func() { genPanic = recover() }()
+			gengo.Generate(dir, pkg, *ts, &gengo.AdjunctCfg{})
+		}()
+		p.Count("wide_struct_probes", 1)
+		if genPanic != nil {
+			p.AddDeviation(fw.Deviation{Sig: "C13:generator-panics", Detail: fmt.Sprintf("schema/gen/go panicked on a struct with %d scalar fields: %v", nf, genPanic), Batch: -1, Index: nf})
+			continue
+		}
+		build := exec.Command("go", "build", "./gen/"+pkg)
+		build.Dir = scratch
+		build.Env = append(os.Environ(), "GOFLAGS=-mod=mod", "GOPROXY=off", "GOSUMDB=off", "GOTOOLCHAIN=local")
+		out, err := build.CombinedOutput()
+		if err == nil {
+			p.Count("wide_struct_packages_compiled", 1)
+			continue
+		}
+		msg := string(out)
+		if strings.Contains(msg, "cannot find module") {
+			p.AddInconclusive("wide-struct probe: module setup failed (harness): " + clipS(msg, 400))
+			return
+		}
+		sig := "C13:generated-code-does-not-compile"
+		onlyOverflow := nf >= 64
+		for _, l := range strings.Split(strings.TrimSpace(msg), "\n") {
+			if strings.HasPrefix(l, "#") || strings.Contains(l, "too many errors") {
+				continue
+			}
+			if !(strings.Contains(l, "cannot use ") && strings.Contains(l, "1 << ") && (strings.Contains(l, "overflows") || strings.Contains(l, "…"))) {
+				onlyOverflow = false
+			}
+		}
+		if onlyOverflow {
+			sig = "C13:generated-code-does-not-compile:struct-with-64-or-more-fields"
+		}
+		p.AddDeviation(fw.Deviation{Sig: sig, Detail: fmt.Sprintf("the package generated for a map-represented struct with %d scalar fields does not compile:\n%s", nf, clipS(msg, 1500)), Batch: -1, Index: nf})
+	}
 }
 
 func c13Batch(p *fw.Parent, b int) {
